@@ -113,6 +113,10 @@ def check(run, views, tier):
             continue
         from .c11 import check_ca_cert_setter, check_config_writers
         check_ca_cert_setter(run, F)
+        from ..engine import include as _inc
+        from . import c14 as _c14
+        # the name the certificate is checked against is the authority the caller gave (C14's authority / shape clauses)
+        _inc(run, _c14, {cfg: {"ipp": F}}, tier, "!default_port", "!R-TLSSTATIC", "!R-CONFIG-LIVE")
         check_config_writers(run, F)       # incl.: the builder stores the target uri as given (scheme decides whether TLS is used at all)
         # ---- (1a) enumerate danger sites in the whole crate ------------------------------
         danger_nodes = {}   # id(node) -> (callee, body)
@@ -212,11 +216,15 @@ def check(run, views, tier):
                                 # receiver object must flow into the value send() is called on
                                 recv_nodes = {id(x[3]) for x in subterms(recv) if x[0] == "call" and len(x) > 3}
                                 flows = bool(recv_nodes & reach_nodes) or any(x[0] == "phi" and any(y is t2 or same(y, t2) for n in x[2] for y in subterms(n)) for x in subterms(send_t))
-                                if from_elem and pem and der and flows:
+                                # which decoder is tried first matters: reqwest's rustls-only from_der never fails (a PEM root would be stored as
+                                # garbage DER), its from_pem parses lazily - the reviewed order is PEM, then DER as the fallback inside the closure
+                                direct = [x[1] for x in subterms(cert) if x[0] == "call"]
+                                order_ok = not (any("from_der" in c for c in direct) and not any("from_pem" in c for c in direct))
+                                if from_elem and pem and der and flows and order_ok:
                                     sunk = True
                                 else:
-                                    why = "root sink %s: from loop element=%s, PEM parse=%s, DER fallback=%s, store reaches the connection=%s" % (
-                                        t2[1], from_elem, pem, der, flows)
+                                    why = "root sink %s: from loop element=%s, PEM parse=%s, DER fallback=%s, PEM tried first=%s, store reaches the connection=%s" % (
+                                        t2[1], from_elem, pem, der, order_ok, flows)
                 if sunk:
                     roots_ok_paths += 1
                 else:
